@@ -59,7 +59,7 @@ def bounded(tier, seed, procs):
     from pymbolic.mapper.evaluator import EvaluationMapper
     x, y, z, a = trees.X, trees.Y, trees.Z, trees.A
     b = BoundedRun("coefficients", rule="all depth<=2 trees over {+, *, /, **} with leaves {x, y, 2, -1, 3} plus products of <= 4 factors with the variable-bearing factor in "
-                   "every position, quotients by constants, nested constant products x target sets {None, [x], [y], [x,y], [z]}: affine (independent degree computation) => "
+                   "every position, quotients by constants, nested constant products x target sets {None, [x], [y], [x,y], [z], and the empty list / tuple / frozenset (no variable is a target), a set, a tuple}: affine (independent degree computation) => "
                    "coefficients free of the targets and sum(coeff*key) == input at 27 exact rational points; not affine => raises; non-trivial = expression containing a target",
                    bound="~1500 expressions x 5 target sets", functions=["CoefficientCollector.*"])
     leaves = [x, y, 2, -1, 3]
@@ -80,7 +80,7 @@ def bounded(tier, seed, procs):
     ex = trees.dedup(ex)
     pts = [dict(x=vx, y=vy, z=vz) for vx, vy, vz in itertools.product([Fraction(2), Fraction(-1, 2), Fraction(5)], [Fraction(3), Fraction(-2), Fraction(1, 3)], [Fraction(1), Fraction(7), Fraction(-3)])]
     for e in ex:
-        for tn in (None, ["x"], ["y"], ["x", "y"], ["z"]):
+        for tn in (None, ["x"], ["y"], ["x", "y"], ["z"], [], (), frozenset(), {"x"}, ("y", "x")):
             tset = {"x", "y", "z"} if tn is None else set(tn)
             present = {d.name for d in DependencyMapper(composite_leaves=False)(e)} if isinstance(e, p.Expression) else set()
             eff_targets = tset & present if tn is not None else present
